@@ -101,13 +101,13 @@ KIND_JSON = {"valid": dict(method="POST", body="valid"), "unsat": dict(method="P
              "huge": dict(method="POST", body="huge")}
 
 
-def load_and_validate(ctx, kinds, rounds, max_clients, scrapes=3, mode="deletion", depth=2, batch=1, race=False):
+def load_and_validate(ctx, kinds, rounds, max_clients, scrapes=3, mode="deletion", depth=2, batch=1, race=False, slow_ms=0):
     """Un-gated concurrent load on the real server, then TLC validation of the recorded trace against TraceServer.tla.
     Returns (round summaries, rejection or None, number of events)."""
     import os, re
     tf = os.path.join(ctx.scratch, "load-%d.ndjson" % len(ctx.tlc_runs))
     summ = ctx.run_vh(["srv-load"], dict(mode=mode, depth=depth, batch=batch, rounds=rounds, maxClients=max_clients, kinds=[KIND_JSON[k] for k in kinds],
-                                         traceFile=tf, scrapesPerRound=scrapes), timeout=3000, race=race)
+                                         traceFile=tf, scrapesPerRound=scrapes, slowMs=slow_ms), timeout=3000, race=race)
     lines = [json.loads(x) for x in open(tf)]
     files = {"TraceServerRun.tla": "---- MODULE TraceServerRun ----\nEXTENDS TraceServer\nRKS == {%s}\n====\n" % ", ".join(RK[k] for k in ALL_KINDS)}
     c = ("SPECIFICATION TraceSpec\nCONSTANTS\n Clients = {%s}\n ReqKinds <- RKS\n WaitForStart = TRUE\n Graceful = TRUE\n SharedParams = FALSE\n Wrapped = TRUE\n AllowStop = FALSE\n"
